@@ -20,6 +20,10 @@ func runMoreSuites(suite string, r *rand.Rand, res *Result, thorough bool) bool 
 		res.Rule = "random table layouts through the verif level manager (flushToL0 / checkAndCompact / recover / searchLowerBound): 1-5 user keys x 2-9 versions, block sizes 1..200 bytes, L0TargetNum 1-4, LevelRatio 1-3, watermark 0..maxTs+1; after every compaction every (key, ts) of the universe is looked up; non-trivial = the case compacts, recovers, uses one-entry blocks or a positive watermark"
 		runCases(s, levelsGen(r, scale(150, 2500), false), res)
 		runCases(s, levelsGen(r, scale(100, 2500), true), res)
+	case "codec":
+		s := Suite{Name: "codec", DriverSuite: "codec", Exec: codecExec}
+		res.Rule = "encoders/decoders of data, index, footer, meta blocks (S2 removed), whole tables through table.Build and the recovery parser (complete and cut files), wal batches and their read-back at random cut lengths, concurrent encoders whose results are re-checked afterwards, key/value lengths around 2^16; non-trivial = every case (distinct inputs) carries at least one of these tags"
+		runCases(s, codecGen(r, scale(60, 1500), true), res)
 	default:
 		return false
 	}
@@ -30,6 +34,8 @@ func moreSuiteByName(name string) (Suite, bool) {
 	switch name {
 	case "levels":
 		return Suite{Name: "levels", DriverSuite: "levels", Exec: levelsExec}, true
+	case "codec":
+		return Suite{Name: "codec", DriverSuite: "codec", Exec: codecExec}, true
 	}
 	return Suite{}, false
 }
